@@ -1,6 +1,6 @@
 From Coq Require Import ZArith QArith String List Bool Permutation.
 Import ListNotations.
-From VTL Require Import Base.Val Model.Table Model.Scalar Model.Expr Proofs.TableP Proofs.MonadP.
+From VTL Require Import Base.Val Model.Table Model.Scalar Model.SetOps Model.Expr Proofs.TableP Proofs.MonadP Proofs.SetOpsP.
 Open Scope string_scope.
 Open Scope list_scope.
 
@@ -467,3 +467,329 @@ Proof.
     destruct (proj_key (d_ids a) (fst r) (d_ids b)); auto. rewrite (find_key_perm _ _ _ Hu Pb). reflexivity.
   - simpl. apply flat_some_perm. exact Pl.
 Qed.
+
+(* =============================================================== set operators of the core language (C05) *)
+Lemma mem_s_In n l : mem_s n l = true <-> In n l.
+Proof.
+  unfold mem_s. rewrite existsb_exists. split.
+  - intros [x [Hx He]]. apply String.eqb_eq in He. subst. exact Hx.
+  - intros H. exists n. split; [exact H | apply String.eqb_refl].
+Qed.
+
+Lemma subset_s_In a b : subset_s a b = true <-> forall n, In n a -> In n b.
+Proof.
+  unfold subset_s. rewrite forallb_forall. split; intros H n Hn; [apply mem_s_In | apply mem_s_In]; auto.
+Qed.
+
+Lemma nodup_s_NoDup l : nodup_s l = true -> NoDup l.
+Proof.
+  induction l as [|h t IH]; simpl; [constructor|]. rewrite andb_true_iff, negb_true_iff. intros [Hn Ht].
+  constructor; [|auto]. intros Hin. apply mem_s_In in Hin. congruence.
+Qed.
+
+Lemma proj_key_Forall2 from k to k' :
+  proj_key from k to = Some k' <-> Forall2 (fun n v => elook n (combine from k) = Some v) to k'.
+Proof.
+  unfold proj_key. revert k'. induction to as [|n t IH]; intros k'; simpl.
+  - split; [intros H; injection H as <-; constructor | intros H; inversion H; reflexivity].
+  - destruct (elook n (combine from k)) as [v|] eqn:En.
+    + destruct (fold_right _ _ t) as [l|] eqn:Ef.
+      * split.
+        -- intros H. injection H as <-. constructor; [exact En | apply IH; reflexivity].
+        -- intros H. inversion H as [|? v' ? l' Hv Hl]; subst. rewrite En in Hv. injection Hv as <-.
+           apply IH in Hl. injection Hl as <-. reflexivity.
+      * split; [discriminate|]. intros H. inversion H as [|? v' ? l' Hv Hl]; subst. apply IH in Hl. discriminate.
+    + split; [discriminate|]. intros H. inversion H as [|? v' ? l' Hv Hl]; subst. rewrite En in Hv. discriminate.
+Qed.
+
+Lemma elook_In_val n (from : list string) (k : list val) v : elook n (combine from k) = Some v -> In v k.
+Proof.
+  revert k. induction from as [|h t IH]; intros [|x xs]; simpl; try discriminate.
+  destruct (String.eqb n h); [intros H; injection H as <-; auto | intros H; right; eapply IH; eauto].
+Qed.
+
+(* alignment only moves values: every value of the aligned key is a value of the original key *)
+Lemma proj_key_values from k to k' : proj_key from k to = Some k' -> forall v, In v k' -> In v k.
+Proof.
+  rewrite proj_key_Forall2. intros F. induction F as [|n v t l Hv _ IH]; intros w Hw; [destruct Hw|].
+  destruct Hw as [<-|Hw]; [eapply elook_In_val; eauto | auto].
+Qed.
+
+Lemma key_eqb_of_lookups from : forall k1 k2,
+  NoDup from -> List.length k1 = List.length from -> List.length k2 = List.length from ->
+  (forall n, In n from -> exists v1 v2, elook n (combine from k1) = Some v1 /\ elook n (combine from k2) = Some v2 /\
+                                       val_eqb v1 v2 = true) ->
+  key_eqb k1 k2 = true.
+Proof.
+  induction from as [|n f IH]; intros [|v1 t1] [|v2 t2] Hnd H1 H2 Hl; simpl in *; try discriminate; auto.
+  inversion Hnd as [|? ? Hnin Hnd']; subst. injection H1 as H1. injection H2 as H2.
+  apply andb_true_iff. split.
+  - destruct (Hl n (or_introl eq_refl)) as [w1 [w2 [E1 [E2 Ev]]]]. rewrite String.eqb_refl in E1, E2.
+    injection E1 as <-. injection E2 as <-. exact Ev.
+  - apply IH; auto. intros m Hm. destruct (Hl m (or_intror Hm)) as [w1 [w2 [E1 [E2 Ev]]]].
+    assert (String.eqb m n = false) as Hmn.
+    { destruct (String.eqb m n) eqn:E; auto. apply String.eqb_eq in E. subst. contradiction. }
+    rewrite Hmn in E1, E2. eauto.
+Qed.
+
+Lemma Forall2_key_eqb_pointwise {A} (P Q : A -> val -> Prop) to k1 k2 :
+  Forall2 P to k1 -> Forall2 Q to k2 -> key_eqb k1 k2 = true ->
+  forall n, In n to -> exists v1 v2, P n v1 /\ Q n v2 /\ val_eqb v1 v2 = true.
+Proof.
+  intros F1. revert k2. induction F1 as [|n v1 t l1 Hp _ IH]; intros k2 F2 He m Hm; [destruct Hm|].
+  inversion F2 as [|? v2 ? l2 Hq F2']; subst. simpl in He. apply andb_true_iff in He. destruct He as [Hv Hk].
+  destruct Hm as [<-|Hm]; [eauto | eapply IH; eauto].
+Qed.
+
+(* alignment by name is injective on keys: two datapoints with different identifier keys keep different keys *)
+Lemma proj_key_inj from to k1 k2 k1' k2' :
+  NoDup from -> List.length k1 = List.length from -> List.length k2 = List.length from ->
+  (forall n, In n from -> In n to) ->
+  proj_key from k1 to = Some k1' -> proj_key from k2 to = Some k2' ->
+  key_eqb k1' k2' = true -> key_eqb k1 k2 = true.
+Proof.
+  intros Hnd H1 H2 Hsub P1 P2 He. apply proj_key_Forall2 in P1. apply proj_key_Forall2 in P2.
+  apply (key_eqb_of_lookups from); auto. intros n Hn.
+  exact (Forall2_key_eqb_pointwise _ _ _ _ _ P1 P2 He n (Hsub n Hn)).
+Qed.
+
+Lemma align_row_spec ib mb ia ma r r' :
+  align_row ib mb ia ma r = Ok r' ->
+  List.length (fst r) = List.length ib /\ proj_key ib (fst r) ia = Some (fst r') /\ proj_key mb (snd r) ma = Some (snd r').
+Proof.
+  unfold align_row. destruct (Nat.eqb _ _ && Nat.eqb _ _) eqn:El; [|discriminate].
+  apply andb_true_iff in El. destruct El as [El _]. apply Nat.eqb_eq in El.
+  destruct (proj_key ib (fst r) ia); [|discriminate]. destruct (proj_key mb (snd r) ma); [|discriminate].
+  intros H. injection H as <-. auto.
+Qed.
+
+Lemma align_rows_uniq ib mb ia ma rows rows' :
+  NoDup ib -> (forall n, In n ib -> In n ia) ->
+  mapM (align_row ib mb ia ma) rows = Ok rows' -> uniq_keys rows = true -> uniq_keys rows' = true.
+Proof.
+  intros Hnd Hsub H. apply mapM_ok_iff in H. induction H as [|r r' t t' Hr Ht IH]; simpl; auto.
+  rewrite !andb_true_iff, !negb_true_iff. intros [Hn Hu]. split; [|auto].
+  destruct (has_key (fst r') t') eqn:E; auto. exfalso.
+  apply has_key_In in E. destruct E as [x' [Hx' He]].
+  assert (exists x, In x t /\ align_row ib mb ia ma x = Ok x') as [x [Hx Hax]].
+  { clear -Ht Hx'. induction Ht as [|a a' l l' Ha _ IHt]; [destruct Hx'|].
+    destruct Hx' as [<-|Hx']; [exists a; simpl; auto | destruct (IHt Hx') as [x [H1 H2]]; exists x; simpl; auto]. }
+  destruct (align_row_spec _ _ _ _ _ _ Hr) as [L1 [P1 _]]. destruct (align_row_spec _ _ _ _ _ _ Hax) as [L2 [P2 _]].
+  assert (has_key (fst r) t = true); [|congruence].
+  apply has_key_In. exists x. split; [exact Hx|]. eapply proj_key_inj; eauto.
+Qed.
+
+Lemma union_binary_In a b x : In x (union [a; b]) <-> In x a \/ (In x b /\ has_key (fst x) a = false).
+Proof.
+  rewrite union_binary. unfold union_step. rewrite in_app_iff, filter_In, negb_true_iff. tauto.
+Qed.
+
+Lemma set_rows_In op a b x : In x (set_rows op a b) -> In x a \/ In x b.
+Proof.
+  destruct op; cbn [set_rows].
+  - rewrite union_binary_In. tauto.
+  - rewrite intersect_spec. tauto.
+  - rewrite setdiff_spec. tauto.
+  - rewrite symdiff_spec. tauto.
+Qed.
+
+Lemma set_rows_uniq op a b : uniq_keys a = true -> uniq_keys b = true -> uniq_keys (set_rows op a b) = true.
+Proof.
+  intros Ha Hb. destruct op; cbn [set_rows].
+  - apply union_uniq. simpl. rewrite Ha, Hb. reflexivity.
+  - apply intersect_uniq. exact Ha.
+  - apply setdiff_uniq. exact Ha.
+  - apply symdiff_uniq; assumption.
+Qed.
+
+Lemma set_rows_perm op a a' b b' :
+  Permutation a a' -> Permutation b b' -> Permutation (set_rows op a b) (set_rows op a' b').
+Proof.
+  intros Pa Pb. destruct op; cbn [set_rows].
+  - apply union_perm. repeat constructor; assumption.
+  - apply intersect_perm; [assumption | repeat constructor; assumption].
+  - apply setdiff_perm; assumption.
+  - apply symdiff_perm; assumption.
+Qed.
+
+Lemma d_setop_spec op a b r :
+  d_setop op a b = Ok r ->
+  set_compat a b = true /\ d_ids r = d_ids a /\ d_ms r = d_ms a /\
+  exists rb, mapM (align_row (d_ids b) (d_ms b) (d_ids a) (d_ms a)) (d_rows b) = Ok rb /\
+             d_rows r = set_rows op (d_rows a) rb.
+Proof.
+  unfold d_setop. destruct (set_compat a b); [|discriminate]. simpl. intros H.
+  apply bind_ok in H. destruct H as [rb [Hrb H]]. injection H as <-. simpl. eauto 6.
+Qed.
+
+Lemma set_compat_spec a b :
+  set_compat a b = true ->
+  (forall n, In n (d_ids a) <-> In n (d_ids b)) /\ (forall n, In n (d_ms a) <-> In n (d_ms b)) /\ NoDup (d_ids b).
+Proof.
+  unfold set_compat, same_names. rewrite !andb_true_iff, !subset_s_In. intros [[[H1 H2] [H3 H4]] H5].
+  split; [split; auto|]. split; [split; auto|]. apply nodup_s_NoDup. exact H5.
+Qed.
+
+(* structurally incompatible operands are a semantic error, never a value *)
+Lemma d_setop_incompatible op a b : set_compat a b = false -> d_setop op a b = Err ERR_SET_STRUCT.
+Proof. unfold d_setop. intros ->. reflexivity. Qed.
+
+(* THE LAWS, for the operator of the core language: the result has the structure of the first operand; with B' the
+   datapoints of the second operand written in the first operand's column order,
+   union = every datapoint of A, and the datapoints of B' whose key A does not have (first operand wins);
+   intersect = the datapoints OF A whose key B' has;  setdiff = the datapoints of A whose key B' does not have;
+   symdiff = setdiff both ways *)
+Definition set_law (op : setop) (a rb : list (list val * list val)) (x : list val * list val) : Prop :=
+  match op with
+  | OUnion => In x a \/ (In x rb /\ has_key (fst x) a = false)
+  | OIntersect => In x a /\ has_key (fst x) rb = true
+  | OSetdiff => In x a /\ has_key (fst x) rb = false
+  | OSymdiff => (In x a /\ has_key (fst x) rb = false) \/ (In x rb /\ has_key (fst x) a = false)
+  end.
+
+Lemma set_rows_law op a rb x : In x (set_rows op a rb) <-> set_law op a rb x.
+Proof.
+  destruct op; cbn [set_rows set_law].
+  - apply union_binary_In.
+  - rewrite intersect_spec. split.
+    + intros [H1 H2]. split; [exact H1 | apply H2; simpl; auto].
+    + intros [H1 H2]. split; [exact H1|]. intros d [<-|[]]. exact H2.
+  - apply setdiff_spec.
+  - apply symdiff_spec.
+Qed.
+
+Lemma d_setop_laws op a b r :
+  d_setop op a b = Ok r ->
+  d_ids r = d_ids a /\ d_ms r = d_ms a /\
+  exists rb, Forall2 (fun x y => align_row (d_ids b) (d_ms b) (d_ids a) (d_ms a) x = Ok y) (d_rows b) rb /\
+             forall x, In x (d_rows r) <-> set_law op (d_rows a) rb x.
+Proof.
+  intros H. destruct (d_setop_spec _ _ _ _ H) as [_ [H1 [H2 [rb [Hrb Hr]]]]]. split; [exact H1|]. split; [exact H2|].
+  exists rb. split; [apply mapM_ok_iff; exact Hrb|]. intros x. rewrite Hr. apply set_rows_law.
+Qed.
+
+(* when both operands already declare their components in the same order, alignment is the identity *)
+Lemma lookups_self (env0 : env) f : forall t,
+  NoDup f -> List.length t = List.length f -> (forall m, In m f -> elook m env0 = elook m (combine f t)) ->
+  Forall2 (fun n v => elook n env0 = Some v) f t.
+Proof.
+  induction f as [|n f IH]; intros [|v t] Hnd Hl He; simpl in *; try discriminate; constructor.
+  - rewrite (He n (or_introl eq_refl)), String.eqb_refl. reflexivity.
+  - inversion Hnd as [|? ? Hnin Hnd']; subst. injection Hl as Hl. apply IH; auto.
+    intros m Hm. rewrite (He m (or_intror Hm)).
+    destruct (String.eqb m n) eqn:E; auto. apply String.eqb_eq in E. subst. contradiction.
+Qed.
+
+Lemma proj_key_self from k : NoDup from -> List.length k = List.length from -> proj_key from k from = Some k.
+Proof. intros Hnd Hl. apply proj_key_Forall2. apply lookups_self; auto. Qed.
+
+(* =============================================================== contexts: compositionality (C05 / C01 / C02) *)
+(* congruence: an expression can be replaced by any expression with the same value, in any context *)
+Lemma plug_congr k : forall e x y, deval e x = deval e y -> deval e (plug k x) = deval e (plug k y).
+Proof.
+  induction k; intros e x y H; simpl; auto; try (rewrite (IHk e x y H); reflexivity).
+Qed.
+
+Lemma deval_weaken n r x : forall e, ~ In n (dvars x) -> deval ((n, r) :: e) x = deval e x.
+Proof.
+  induction x as [m|op a IHa b IHb|op a IHa b IHb|a IH body|a IH c|a IH defs|a IH l|a IH l|a IH l|a IH l]; intros e Hn; simpl in *;
+    try (rewrite IH by exact Hn; reflexivity);
+    try (rewrite in_app_iff in Hn; rewrite IHa, IHb by tauto; reflexivity).
+  destruct (String.eqb m n) eqn:E; auto. apply String.eqb_eq in E. subst. tauto.
+Qed.
+
+(* an operand written in place (one statement) has the value it has when computed by a statement of its own and
+   referred to by name: what a sub-expression contributes to ANY enclosing operator is exactly its own result *)
+Lemma deval_plug_let k : forall e x r n,
+  deval e x = Ok r -> ~ In n (kvars k) -> deval e (plug k x) = deval ((n, r) :: e) (plug k (DVar n)).
+Proof.
+  induction k; intros e x r n Hx Hn; simpl in *;
+    try (rewrite (IHk e x r n Hx Hn); reflexivity);
+    try (rewrite in_app_iff in Hn).
+  - rewrite String.eqb_refl. exact Hx.
+  - rewrite (IHk e x r n Hx) by tauto. rewrite (deval_weaken n r b) by tauto. reflexivity.
+  - rewrite (IHk e x r n Hx) by tauto. rewrite (deval_weaken n r a) by tauto. reflexivity.
+  - rewrite (IHk e x r n Hx) by tauto. rewrite (deval_weaken n r b) by tauto. reflexivity.
+  - rewrite (IHk e x r n Hx) by tauto. rewrite (deval_weaken n r a) by tauto. reflexivity.
+Qed.
+
+Lemma nested_is_flat k e x r n out :
+  deval e x = Ok r -> ~ In n (kvars k) -> n <> out ->
+  run_script e [(out, plug k x)] out = run_script e [(n, x); (out, plug k (DVar n))] out.
+Proof.
+  intros Hx Hn Hne. unfold run_script. simpl. rewrite Hx. simpl. rewrite <- (deval_plug_let k e x r n Hx Hn).
+  destruct (deval e (plug k x)); simpl; [rewrite !String.eqb_refl; reflexivity | reflexivity].
+Qed.
+
+(* the set-operator laws hold for a set operator used as an operand of anything: whatever context encloses
+   `DSet op a b`, the enclosing operators see exactly the dataset described by d_setop_laws *)
+Lemma dset_in_context k e op a b da db r n :
+  deval e a = Ok da -> deval e b = Ok db -> d_setop op da db = Ok r -> ~ In n (kvars k) ->
+  deval e (plug k (DSet op a b)) = deval ((n, r) :: e) (plug k (DVar n)).
+Proof.
+  intros Ha Hb Hs Hn. apply deval_plug_let; auto. simpl. rewrite Ha, Hb. exact Hs.
+Qed.
+
+(* the shape of the C05 seeds: a set operator under a clause that removes an identifier, in ONE statement — the clause is
+   applied to the dataset that the set operator yields on the FULL identifier keys of its operands *)
+Lemma dset_under_sub e op a b l da db r :
+  deval e a = Ok da -> deval e b = Ok db -> d_setop op da db = Ok r ->
+  deval e (DSub (DSet op a b) l) = Ok (d_sub r l).
+Proof. intros Ha Hb Hs. simpl. rewrite Ha, Hb. simpl. rewrite Hs. reflexivity. Qed.
+
+(* =============================================================== n-ary set operators at the language level *)
+Lemma subset_s_refl l : subset_s l l = true.
+Proof. apply subset_s_In. auto. Qed.
+
+Lemma mapM_id {A} (f : A -> res A) l : (forall x, In x l -> f x = Ok x) -> mapM f l = Ok l.
+Proof.
+  induction l as [|x t IH]; intros H; simpl; [reflexivity|].
+  rewrite (H x (or_introl eq_refl)). simpl. rewrite IH; [reflexivity|]. intros y Hy. apply H. right. exact Hy.
+Qed.
+
+Definition rows_fit (ids ms : list string) (rows : list (list val * list val)) : Prop :=
+  forall r, In r rows -> List.length (fst r) = List.length ids /\ List.length (snd r) = List.length ms.
+
+(* operands that declare the same components in the same order: no realignment, the SetOps function on the rows as they are *)
+Lemma d_setop_same_order op a b :
+  d_ids b = d_ids a -> d_ms b = d_ms a -> nodup_s (d_ids a) = true -> nodup_s (d_ms a) = true ->
+  rows_fit (d_ids b) (d_ms b) (d_rows b) ->
+  d_setop op a b = Ok (mkD (d_ids a) (d_ms a) (set_rows op (d_rows a) (d_rows b))).
+Proof.
+  intros Hi Hm Ni Nm Hfit. unfold d_setop, set_compat, same_names. rewrite Hi, Hm, !subset_s_refl, Ni. simpl.
+  rewrite mapM_id; [reflexivity|]. intros [k m] Hr. destruct (Hfit _ Hr) as [L1 L2]. simpl in L1, L2.
+  unfold align_row. simpl. rewrite Hi in L1. rewrite Hm in L2. rewrite L1, L2, !Nat.eqb_refl. simpl.
+  rewrite (proj_key_self _ _ (nodup_s_NoDup _ Ni) L1), (proj_key_self _ _ (nodup_s_NoDup _ Nm) L2). reflexivity.
+Qed.
+
+(* union(A, B1, …, Bn) / intersect(A, B1, …, Bn) written as left-nested DSet nodes evaluate to the n-ary function of
+   Model/SetOps.v over the operands' datapoints *)
+Lemma dset_nary_rows (op : setop) (f : list (list (list val * list val)) -> list (list val * list val)) :
+  (forall a rest, f (a :: rest) = fold_left (fun acc d => set_rows op acc d) rest a) ->
+  forall e rest drest a da,
+  deval e a = Ok da -> Forall2 (fun x d => deval e x = Ok d) rest drest ->
+  nodup_s (d_ids da) = true -> nodup_s (d_ms da) = true ->
+  Forall (fun d => d_ids d = d_ids da /\ d_ms d = d_ms da /\ rows_fit (d_ids d) (d_ms d) (d_rows d)) drest ->
+  deval e (dset_nary op a rest) = Ok (mkD (d_ids da) (d_ms da) (f (d_rows da :: map d_rows drest))).
+Proof.
+  intros Hf e rest drest a da Ha F. revert a da Ha. induction F as [|x d rest drest Hx F IH]; intros a da Ha Ni Nm Hall.
+  - simpl. rewrite Hf. simpl. rewrite Ha. destruct da; reflexivity.
+  - inversion Hall as [|? ? [Hi [Hm Hfit]] Hall']; subst. unfold dset_nary. cbn [fold_left]. fold (dset_nary op (DSet op a x) rest).
+    assert (deval e (DSet op a x) = Ok (mkD (d_ids da) (d_ms da) (set_rows op (d_rows da) (d_rows d)))) as Hstep.
+    { simpl. rewrite Ha, Hx. simpl. apply d_setop_same_order; auto. }
+    rewrite (IH _ _ Hstep); simpl; auto. rewrite !Hf. reflexivity.
+Qed.
+
+Theorem dset_nary_union e a rest da drest :
+  deval e a = Ok da -> Forall2 (fun x d => deval e x = Ok d) rest drest ->
+  nodup_s (d_ids da) = true -> nodup_s (d_ms da) = true ->
+  Forall (fun d => d_ids d = d_ids da /\ d_ms d = d_ms da /\ rows_fit (d_ids d) (d_ms d) (d_rows d)) drest ->
+  deval e (dset_nary OUnion a rest) = Ok (mkD (d_ids da) (d_ms da) (union (d_rows da :: map d_rows drest))).
+Proof. apply (dset_nary_rows OUnion union). exact union_left_nested. Qed.
+
+Theorem dset_nary_intersect e a rest da drest :
+  deval e a = Ok da -> Forall2 (fun x d => deval e x = Ok d) rest drest ->
+  nodup_s (d_ids da) = true -> nodup_s (d_ms da) = true ->
+  Forall (fun d => d_ids d = d_ids da /\ d_ms d = d_ms da /\ rows_fit (d_ids d) (d_ms d) (d_rows d)) drest ->
+  deval e (dset_nary OIntersect a rest) = Ok (mkD (d_ids da) (d_ms da) (intersect (d_rows da :: map d_rows drest))).
+Proof. apply (dset_nary_rows OIntersect intersect). exact intersect_left_nested. Qed.
